@@ -41,7 +41,7 @@ Fixpoint sindex (x : string) (l : list string) : option nat :=
 Definition rot_in (fam : list string) (i : nat) (k : Z) : string :=
   nth (Z.to_nat ((Z.of_nat i + k) mod Z.of_nat (length fam))) fam ""%string.
 
-Definition invert_fig (f : string) (k : Z) : option string :=
+Definition invert_fig0 (f : string) (k : Z) : option string :=
   match sindex f four_family with
   | Some i => Some (rot_in four_family i k)
   | None => match sindex f three_family with
@@ -49,6 +49,10 @@ Definition invert_fig (f : string) (k : Z) : option string :=
             | None => None          (* 'Unknown extension' *)
             end
   end.
+
+(* '5' is the explicit spelling of the root position triad (what I.o(1) builds): inverted as '' *)
+Definition canon_fig (f : string) : string := if String.eqb f "5" then ""%string else f.
+Definition invert_fig (f : string) (k : Z) : option string := invert_fig0 (canon_fig f) k.
 
 Definition invert (c : chord) (k : Z) : option chord :=
   do f <- invert_fig (fig (cext c)) k ;;
